@@ -254,6 +254,18 @@ func DumpStore(s *state.Store, o *dump.Options) Dump {
 	return d
 }
 
+// ResourceDump renders the resource store content (storage/raft backend).
+func (w *World) ResourceDump() []string { return w.ResourceDumpOpts(nil) }
+
+func (w *World) ResourceDumpOpts(o *dump.Options) []string {
+	var out []string
+	for _, r := range w.Backend.VerifStore().VerifAll() {
+		out = append(out, dump.Value(r, o))
+	}
+	sort.Strings(out)
+	return out
+}
+
 func (d Dump) String() string {
 	names := make([]string, 0, len(d))
 	for n := range d {
@@ -353,7 +365,11 @@ func (w *World) Key() string {
 // LongKey is the un-hashed canonical form (for diagnostics).
 func (w *World) LongKey() string {
 	d := w.Dump(&dump.Options{MarkIndexes: true})
-	return dump.Compress(d.String())
+	s := d.String()
+	if w.ResourceOps {
+		s += "== resources\n" + strings.Join(w.ResourceDumpOpts(&dump.Options{MarkIndexes: true}), "\n")
+	}
+	return dump.Compress(s)
 }
 
 // HashKey shortens a canonical form to 16 bytes (SHA-256 prefix); collisions are negligible at
